@@ -4,11 +4,17 @@ CONSTANTS
   MaxCycles = 3
   ExportScripts = FALSE
   EnableFaults = TRUE
+  EnableRestart = TRUE
   SrcVals = {0, 3, 255}
   Dts = {1, 2, 5}
 VIEW View
 CHECK_DEADLOCK FALSE
 INVARIANTS
+  WarmKeepsExactlyRetained
+  ColdEqualsFresh
+  RestartResets
+  PowerCycleSetEqualsWarmSet
+  RestartClearsFault
   AtMostOncePerCycle
   OrderIsSorted
   BackgroundAfterTasks
